@@ -229,11 +229,12 @@ def c03(ctx: Ctx) -> None:
             for n2 in gr.nodes:
                 if n2.kind == 'call' and n2.ast is c.ast.value:
                     ee += [e for e in gr.succ[n2.id] if e.label == 'exc']
-        w = find_path(gr, [], [s], start_edges=ee)
-        # and the set is reachable from entry only via CALLFUNC normal completion or the empty-set edge
+        # the set is reachable - from entry and from any failure edge - only via a (new) normal
+        # completion of CALLFUNC or the empty-set edge
         empty_edges = [e for n in gr.nodes if n.kind == 'branch' and isinstance(n.meta['test'], ast.Name)
                        and n.meta['test'].id in r.run.params for e in gr.succ[n.id] if e.label == 'false']
         ok_edges = {id(e) for c in r.callfunc for e in gr.succ[c.id] if e.label != 'exc'} | {id(e) for e in empty_edges}
+        w = find_path(gr, [], [s], start_edges=ee, edge_ok=lambda e: id(e) not in ok_edges)
         w2 = find_path(gr, [gr.entry], [s], edge_ok=lambda e: id(e) not in ok_edges)
         ctx.check('C03-S1', f'{norm(s.ast)}', gr.loc(s), w is None and w2 is None,
                   'set only after the call returned normally (or nothing to deliver)',
@@ -355,11 +356,15 @@ def c03(ctx: Ctx) -> None:
             and isinstance(n.ast.func.value, ast.Name) and n.ast.func.value.id == RS]
     for fo in fors:
         ee = [e for e in gl.succ[fo.id] if e.label == 'exc']
-        esc = [e for e in ee if e.dst is gl.raise_exit and carries_exception(e.classes)]
+        # a producer may also fail with CancelledError (a cancelled task/future handed to await_());
+        # what may remain un-caught is only the rest of BaseException (KeyboardInterrupt, SystemExit, GeneratorExit)
+        esc = [e for e in ee if e.dst is gl.raise_exit and (carries_exception(e.classes)
+                                                             or {'CancelledError', 'BaseException'} & set(e.classes or ()))]
         reached = reach(gl, [], start_edges=ee)
         reraises = [n for n in gl.nodes if n.kind == 'raise' and n.id in reached]
         ctx.check('C03-S5', f'failure of {norm(fo.ast.iter)} is contained', gl.loc(fo), not esc and not reraises and bool(ee),
-                  'handler class covers Exception and does not re-raise', 'one failing producer aborts the gather: other producers\' arguments are lost',
+                  'handler covers Exception and CancelledError and does not re-raise',
+                  'one failing producer (Exception, or CancelledError of a cancelled awaitable) aborts the gather: other producers\' arguments and its own prefix are lost',
                   construct=construct_key(r.load.qualname, 'producer failure escapes'))
         inbody = [a for a in adds if fo.ast in a.loops]
         ctx.check('C03-S5', f'{RS}.add(...) inside the producer loop', gl.loc(fo), bool(inbody) and len(inbody) == len(adds),
@@ -644,9 +649,12 @@ def c07(ctx: Ctx) -> None:
     if jn is not None:
         v = jn.ast.value
         ok = (isinstance(v, ast.Call) and isinstance(v.func, ast.Attribute) and v.func.attr == 'create_task' and self_attr(v.func.value) == 'loop') \
-            or (isinstance(v, ast.Call) and meth_call_ast(v, r.q, 'join'))
-        ctx.check('C07-W8', f'join: {norm(jn.ast)}', gw.loc(jn), ok, 'awaited directly or as a task of the owning loop',
-                  'the join does not run on the owning loop', construct=construct_key(r.wait.qualname, 'join placement'))
+            or (isinstance(v, ast.Call) and call_name(gw, v) in ('asyncio.create_task', 'asyncio.ensure_future'))
+        ctx.check('C07-W8', f'join: {norm(jn.ast)}', gw.loc(jn), ok,
+                  'the join starts as a task, i.e. behind the already scheduled put callbacks in the ready queue',
+                  'join() awaited inline runs before a put that is still pending in the ready queue (call_soon_threadsafe): '
+                  'it sees no unfinished task for a just-submitted argument and wait() returns too early',
+                  construct=construct_key(r.wait.qualname, 'join placement'))
     init_loop = r.kinds.get(r.daemon_attr)
     # W9
     for f in r.daemon_scopes():
@@ -708,7 +716,7 @@ def c08(ctx: Ctx) -> None:
     ctx.trusted += ['asyncio.wait_for timer', 'a single asyncio task runs one coroutine step at a time']
     ctx.rule('C08-D1', 'one awaited call site of the wrapped function, reached from the daemon root by awaited calls only; the root is spawned once', 2)
     ctx.rule('C08-D2', 'the call is control-dependent on the truthiness of the set it passes', 1)
-    ctx.rule('C08-D3', 'the function runs only after a freshly armed quiet timer expired (or was cancelled); the timer wraps queue.get() in wait_for(_, self.timeout)', 3)
+    ctx.rule('C08-D3', 'the function runs only after a freshly armed quiet timer expired (or was cancelled), once per expiry; the timer wraps queue.get() in wait_for(_, self.timeout)', 4)
     ctx.rule('C08-D4', 'drain precedes arming, everything drained is gathered before the timer is awaited, a successful timed get returns to the loop head', 3)
     # D1
     sites = []
@@ -772,6 +780,12 @@ def c08(ctx: Ctx) -> None:
         ctx.check('C08-D3', f'{norm(rc.ast)} is reached only through the expiry/cancel edge of the timed read', g.loc(rc), w is None and bool(trig),
                   'the timer is the sole trigger', 'the function is triggered by something other than the quiet timer', witness=render(g, w),
                   construct=construct_key(r.process.qualname, 'other trigger'))
+    for c in r.callfunc:
+        w = find_path(gr, [], [c], start_edges=list(gr.succ[c.id]))
+        ctx.check('C08-D3', f'{norm(c.ast)} runs at most once per expiry of the quiet timer', gr.loc(c), w is None,
+                  'a retry goes back through drain + fresh timer', 'the function is re-run inside the runner without a new quiet period: '
+                  'arguments arriving in between are neither merged nor restart the timer', witness=render(gr, w),
+                  construct=construct_key(r.run.qualname, 'call in a loop'))
     # the timer wraps Q.get() in wait_for(_, self.timeout)
     arm = r.arm[0]
     v = arm.meta['value']
